@@ -250,9 +250,14 @@ func RunWorker(d Driver, tier string, seed uint64, w, nw int, maxRuns uint64, de
 			}
 			reported[sig] = true
 			base := c
-			if len(v.Faults) > 0 && len(c.Faults) == 0 {
+			if (len(v.Faults) > 0 && len(c.Faults) == 0) || (len(v.Schedule) > 0 && len(c.Schedule) == 0) {
 				base = c.Clone()
-				base.Faults = v.Faults
+				if len(c.Faults) == 0 {
+					base.Faults = v.Faults
+				}
+				if len(c.Schedule) == 0 {
+					base.Schedule = v.Schedule
+				}
 				if sameViolation(d.Execute(base), v.Property, v.Class) == nil {
 					base = c
 				}
